@@ -203,11 +203,11 @@ pub fn check(case: &Case) -> Outcome {
 
 pub fn run(ctx: &Ctx) -> Report {
     let mut rep = Report::new();
-    let (mc, mh) = if ctx.quick() { (32, 9) } else { (128, 11) };
+    let (mc, mh) = if ctx.quick() { (128, 9) } else { (128, 11) };
     pt_run(ctx, "c05", ctx.n(20000, 300000), || strategy(mc, mh), check, &mut rep);
-    // deterministic grid: every (cols in 1,2,3,16), height<=6, nvf around the bottom boundary, each corruption
+    // deterministic grid: every (cols in 1,2,3,16,33,128), height<=6, nvf around the bottom boundary, each corruption
     let mut grid = Vec::new();
-    for cols in [1u32, 2, 3, 16] {
+    for cols in [1u32, 2, 3, 16, 33, 128] {
         for height in 0..=6u32 {
             for nvf in [0, height.saturating_sub(1), height, height + 1, height + 2] {
                 for corrupt in 0..9u8 {
@@ -247,4 +247,4 @@ pub fn replay(_ctx: &Ctx, v: &Value) -> Result<Outcome, String> {
     Ok(check(&c))
 }
 
-pub const RULE: &str = "proptest-generated tables (1..=32 columns quick / 128 thorough, height 0..=9/11, nvf 0..=height+3, PRF cells, query sets from 6 shape classes, 0/1 corruption of 8 kinds) plus a deterministic grid around the bottom-layer friendly boundary; non-trivial = corruption that is semantically false per the independent table builder, or single-column table, or nvf in {height, height+1}, or >= 2 queried rows; distinct by case hash, per hash build";
+pub const RULE: &str = "proptest-generated tables (1..=128 columns (the configuration bound; one case in eight above 24), height 0..=9/11, nvf 0..=height+3, PRF cells, query sets from 6 shape classes, 0/1 corruption of 8 kinds) plus a deterministic grid around the bottom-layer friendly boundary; non-trivial = corruption that is semantically false per the independent table builder, or single-column table, or nvf in {height, height+1}, or >= 2 queried rows; distinct by case hash, per hash build";
